@@ -59,6 +59,27 @@ func (engine) Shrink(ci any, stillFails func(any) bool) any {
 					changed = true
 				}
 			}
+			if cur.Calls[ci].Host > 0 && budget > 0 {
+				// a hosted call: from a fresh context, then without the host's own options / handlers
+				budget--
+				if try(func(c *Case) bool {
+					c.Calls[ci].Host, c.Calls[ci].HostHs, c.Calls[ci].HostBait = 0, nil, false
+					return true
+				}) {
+					changed = true
+				} else if cur.Calls[ci].HostBait || len(cur.Calls[ci].HostHs) > 0 {
+					budget--
+					if try(func(c *Case) bool {
+						if c.Calls[ci].Host == 4 {
+							return false
+						}
+						c.Calls[ci].HostHs, c.Calls[ci].HostBait = nil, false
+						return true
+					}) {
+						changed = true
+					}
+				}
+			}
 			if (cur.Calls[ci].Stream || cur.Calls[ci].InStr) && budget > 0 {
 				budget--
 				if try(func(c *Case) bool { c.Calls[ci].Stream, c.Calls[ci].InStr = false, false; return true }) {
